@@ -10,6 +10,10 @@ import (
 	"testing"
 
 	z "github.com/Oudwins/zog"
+	"github.com/Oudwins/zog/conf"
+	"github.com/Oudwins/zog/i18n"
+	"github.com/Oudwins/zog/i18n/en"
+	"github.com/Oudwins/zog/i18n/es"
 	"github.com/Oudwins/zog/parsers/zjson"
 	"pgregory.net/rapid"
 
@@ -37,6 +41,9 @@ type c08Step struct {
 	// the ones the result carried
 	Sanitize bool   `json:"sanitize,omitempty"`
 	Fmt      string `json:"fmt,omitempty"` // WithIssueFormatter stamping this marker
+	// Lang: the case installs i18n (en default, es) and this call names its language through the context
+	// ("" none, "en", "es", "fr" = not registered: default language)
+	Lang string `json:"lang,omitempty"`
 }
 
 type c08Case struct {
@@ -64,7 +71,7 @@ type builtSchema struct {
 	specIss []string
 }
 
-func (b *builtSchema) run(i int, fmtMarker string) *model.Result {
+func (b *builtSchema) run(i int, fmtMarker string, lang ...string) *model.Result {
 	dest := reflect.New(b.typ)
 	var in any
 	switch {
@@ -75,10 +82,26 @@ func (b *builtSchema) run(i int, fmtMarker string) *model.Result {
 	default:
 		in = b.inputs[i].Go() // a fresh input value per call: inputs are the caller's own data
 	}
-	return model.Run(b.schema, b.env, model.Exec{Mode: b.mode, Formatter: fmtMarker}, in, dest)
+	x := model.Exec{Mode: b.mode, Formatter: fmtMarker}
+	if len(lang) > 0 && lang[0] != "" {
+		x.CtxVals = []model.KV{{K: i18n.LangKey, V: model.Str(lang[0])}}
+	}
+	return model.Run(b.schema, b.env, x, in, dest)
 }
 
 func propC08(c c08Case) hh.Verdict {
+	for _, plan := range c.Plans {
+		for _, st := range plan {
+			if st.Lang != "" {
+				// one process-wide installation, as an application does at start-up; calls then differ in the language they name
+				saved := conf.IssueFormatter
+				defer func() { conf.IssueFormatter = saved }()
+				i18n.SetLanguagesErrsMap(map[string]i18n.LangMap{"en": en.Map, "es": es.Map}, "en")
+				goto installed
+			}
+		}
+	}
+installed:
 	bs := make([]*builtSchema, len(c.Schemas))
 	for i, s := range c.Schemas {
 		s.Root.Number()
@@ -122,7 +145,7 @@ func propC08(c c08Case) hh.Verdict {
 			for r := 0; r < c.Rounds; r++ {
 				for k, st := range plan {
 					b := bs[st.S]
-					res := b.run(st.I, st.Fmt)
+					res := b.run(st.I, st.Fmt, st.Lang)
 					got := observe(res)
 					issues := fmt.Sprint(res.Norm(false))
 					stale := ""
@@ -134,9 +157,9 @@ func propC08(c c08Case) hh.Verdict {
 						}
 					}
 					mu.Lock()
-					prev, ok := seen[obsKey{st.S, st.I, st.Fmt}]
+					prev, ok := seen[obsKey{st.S, st.I, st.Fmt + "|" + st.Lang}]
 					if !ok {
-						seen[obsKey{st.S, st.I, st.Fmt}] = got
+						seen[obsKey{st.S, st.I, st.Fmt + "|" + st.Lang}] = got
 						prev = got
 					}
 					bad := ""
@@ -203,7 +226,8 @@ func propC08(c c08Case) hh.Verdict {
 	}
 	// every concurrent result must also equal what the call returns running alone (afterwards, sequentially)
 	for k, got := range seen {
-		res := bs[k.s].run(k.i, k.fmt)
+		f, l, _ := strings.Cut(k.fmt, "|")
+		res := bs[k.s].run(k.i, f, l)
 		if alone := observe(res); alone != got {
 			return hh.Fail("schema #%d input #%d [%s]: concurrent calls returned\n  %s\nrunning alone it returns\n  %s", k.s, k.i, bs[k.s].mode, got, alone)
 		}
@@ -265,12 +289,16 @@ func genC08(rt *rapid.T, thorough bool) c08Case {
 		c.Schemas = append(c.Schemas, s)
 	}
 	ng := rapid.SampledFrom([]int{8, 16, 16, 24}).Draw(rt, "goroutines")
+	langs := []string{""}
+	if rapid.IntRange(0, 2).Draw(rt, "i18n") == 0 {
+		langs = []string{"", "es", "en", "es", "fr"} // this workload runs with i18n installed; calls name different languages
+	}
 	for g := 0; g < ng; g++ {
 		var plan []c08Step
 		for k, n := 0, rapid.IntRange(5, 25).Draw(rt, "plen"); k < n; k++ {
 			s := rapid.IntRange(0, ns-1).Draw(rt, "s")
 			plan = append(plan, c08Step{S: s, I: rapid.IntRange(0, len(c.Schemas[s].Inputs)-1).Draw(rt, "i"), Collect: rapid.IntRange(0, 3).Draw(rt, "collect") == 0, Sanitize: rapid.Bool().Draw(rt, "sanitize"),
-				Fmt: rapid.SampledFrom([]string{"", "", "FMT-A", "FMT-B"}).Draw(rt, "fmt")})
+				Fmt: rapid.SampledFrom([]string{"", "", "FMT-A", "FMT-B"}).Draw(rt, "fmt"), Lang: rapid.SampledFrom(langs).Draw(rt, "lang")})
 		}
 		c.Plans = append(c.Plans, plan)
 	}
@@ -330,7 +358,7 @@ func stripGatedPosts(c *c08Case) {
 
 func TestC08(t *testing.T) {
 	h := hh.Start(t, "C08",
-		"cases = workloads: 3-8 shared schema objects (all kinds, Catch, own-destination PostTransforms, struct-level tests) with 2-5 inputs each; 8-32 goroutines start together and each runs a generated plan of 5-25 (schema, input, collect-own-result through Collect* or Sanitize*AndCollect?) steps for 6 (thorough 20) rounds against the SHARED schema objects with private inputs and destinations; binary built with -race; non-trivial = some schema object was used by >=2 goroutines in the workload; distinct = FNV-1a of the case JSON",
+		"cases = workloads: 3-8 shared schema objects (all kinds, Catch, own-destination PostTransforms, struct-level tests) with 2-5 inputs each; 8-32 goroutines start together and each runs a generated plan of 5-25 (schema, input, collect-own-result through Collect* or Sanitize*AndCollect?, per-call formatter?, language named in the context when the workload runs with i18n installed) steps for 6 (thorough 20) rounds against the SHARED schema objects with private inputs and destinations; binary built with -race; non-trivial = some schema object was used by >=2 goroutines in the workload; distinct = FNV-1a of the case JSON",
 		"the goroutines start on COLD library state (expected issues come from the executable specification, not from a sequential warm-up run): every concurrent call must (a) report the issues the specification gives for it, (b) agree with every other concurrent call of the same schema and input, (c) equal what the same call returns running alone afterwards (issues incl. messages, destination); any report of the Go race detector during the run is a violation (detected by the driver from the process output). Lists marked long grow by 8 elements from workload to workload so that lazily grown shared state is extended while goroutines run",
 		"random schedules only: the harness does not own the scheduler; a schedule-dependent failure is reported with the workload, not with a replayable interleaving",
 		"PostTransforms are kept only on schemas none of whose inputs produce issues (otherwise their effect is visit-order dependent by the documented gating)")
